@@ -120,7 +120,7 @@ def reference(model, what):
         cum = Fraction(0)
         times = []
         for d in F.merge_model(model['tracks']):
-            ds = Fraction(d['time'] * tempo, 10 ** 6 * model['tpb'])
+            ds = Fraction(d['time']) * tempo / (10 ** 6 * model['tpb'])
             cum += ds
             times.append((d['type'], float(ds)))
             if d['type'] == 'set_tempo':
@@ -342,7 +342,7 @@ def nontrivial(case):
 
 _CTX = None
 MSG = st.tuples(st.integers(0, 7), st.sampled_from([0, 0, 1, 120, 480, 960])).map(list)
-TIMES = st.sampled_from([0, 1, 120, 480, 960, 2000])
+TIMES = st.sampled_from([0, 1, 120, 480, 960, 2000, 240.5, 0.25, 480.0])
 
 
 class FileMachine(RuleBasedStateMachine):
@@ -452,7 +452,7 @@ def main(ctx):
     # the documented two-message example and its variants, for every observation pair
     for first in ('length', 'iter', 'merged', 'play', 'save', 'play-abandoned', 'iter-abandoned'):
         for second in ('length', 'iter', 'merged', 'play', 'save'):
-            for edit in (['poke_merged'], ['poke_yielded'], ['charset', 'utf-8'], ['msg_append', 0, 7, 10], ['msg_append', 0, 1, 480], ['msg_set', 0, 0, 'time', 960], ['msg_set', 0, 0, 'field', 5],
+            for edit in (['poke_merged'], ['poke_yielded'], ['msg_set', 0, 0, 'time', 240.5], ['type', 0], ['add_track', 'x'], ['charset', 'utf-8'], ['msg_append', 0, 7, 10], ['msg_append', 0, 1, 480], ['msg_set', 0, 0, 'time', 960], ['msg_set', 0, 0, 'field', 5],
                          ['msg_replace', 0, 3, 0, 0], ['tracks_append', [[0, 480]]], ['tpb', 96], ['msg_del', 0, 0],
                          ['tracks_replace', 0], ['name', 0, 'q']):
                 ctx.check({'ops': [['add_track', None], ['msg_append', 0, 0, 480], ['msg_append', 0, 2, 0],
